@@ -316,6 +316,15 @@ func observe(c *client.Client, fib bool) (Obs, error) {
 	return o, nil
 }
 
+// opInst is one operation handed to Q: the very message the client was given, so that the pending queue can be
+// asked for THIS operation (PendingOp.Op is the pointer that was queued) and not just for its id.
+type opInst struct {
+	step int
+	op   OpJ
+	ptr  *spb.AFTOperation
+	qErr bool // the Q call that carried it left a send error on record
+}
+
 // runner executes one script on a fresh client.
 type runner struct {
 	f *fabric
@@ -367,6 +376,7 @@ func (r *runner) runCase(cs Case) ([]Obs, string) {
 		respSent    int64
 		queued      = map[uint64]OpJ{}
 		dupIDs      bool
+		instances   []*opInst // every operation handed to Q, in order
 	)
 	note := func(i int, format string, a ...any) {
 		if problem == "" {
@@ -428,6 +438,9 @@ func (r *runner) runCase(cs Case) ([]Obs, string) {
 				queued[o.ID] = o.norm()
 			}
 			m := s.request()
+			for j, o := range s.Ops {
+				instances = append(instances, &opInst{step: i, op: o.norm(), ptr: m.Operation[j]})
+			}
 			if !call(i, "Q", func() { c.Q(m) }) {
 				break
 			}
@@ -573,6 +586,45 @@ func (r *runner) runCase(cs Case) ([]Obs, string) {
 		}
 		obs = append(obs, o)
 
+		// ---- oracle, duplicate ids or not: an operation handed to Q is never silently gone.  At all times it is
+		// pending (the pending queue holds THIS operation under its id), or resulted (a result for its id carrying
+		// its type and key), or the Q call that carried it left a send error on record; errors stay on record.
+		if before.RE > o.RE || before.SE > o.SE {
+			note(i, "recorded errors disappeared")
+		}
+		if s.K == "q" && o.SE > before.SE {
+			for _, in := range instances {
+				if in.step == i {
+					in.qErr = true
+				}
+			}
+		}
+		pendPtr := map[*spb.AFTOperation]bool{}
+		if pt, err := c.Pending(); err == nil {
+			for _, x := range pt {
+				if po, ok := x.(*client.PendingOp); ok {
+					pendPtr[po.Op] = true
+				}
+			}
+		}
+		for _, in := range instances {
+			if pendPtr[in.ptr] || in.qErr {
+				continue
+			}
+			w := [3]uint64{uint64(optypeOf(in.op.Type)), uint64(in.op.Kind), in.op.Key}
+			resulted := false
+			for _, ro := range o.ResIDs {
+				if ro.op && ro.id == in.op.ID && ro.det != nil && *ro.det == w {
+					resulted = true
+				}
+			}
+			if !resulted {
+				note(i, "operation %s handed to Q in step %d is silently gone: the pending queue does not hold it (pending ids %v), no result carries its id, type and key, and its Q call recorded no error (%d send errors on record)",
+					in.op.coq(), in.step, o.Pend, o.SE)
+				break
+			}
+		}
+
 		// ---- oracle: the property's own predicate on Pending()/Results() (only for distinct ids)
 		if dupIDs {
 			continue
@@ -624,9 +676,6 @@ func (r *runner) runCase(cs Case) ([]Obs, string) {
 		if wantReadErr != "" && o.RE == 0 {
 			note(i, "protocol violation by the server did not surface as an error: %s in %s (fib_ack=%v); no receive error recorded", wantReadErr, s.coq(), cs.Fib)
 		}
-		if before.RE > o.RE || before.SE > o.SE {
-			note(i, "recorded errors disappeared")
-		}
 		for _, id := range ribOnly {
 			if !inPend[id] {
 				note(i, "RIB acknowledgement completed operation %d in FIB-ack mode", id)
@@ -668,6 +717,10 @@ func genCase(r *drv.Rng) Case {
 	waiting := 0
 	recvAlive := true
 	violate := r.Chance(1, 3)
+	// some scripts reuse operation ids: the same id twice inside ONE request (different type and key), the id of a
+	// pending operation in a later request (both rejected: send error, the rest of the message is not registered),
+	// the id of a completed operation (accepted)
+	dups := r.Chance(1, 5)
 	nsteps := 6 + r.Intn(16)
 	add := func(s Step) { c.Steps = append(c.Steps, s) }
 	genQ := func() {
@@ -679,6 +732,10 @@ func genCase(r *drv.Rng) Case {
 		if r.Chance(1, 8) {
 			n = 0
 		}
+		dupHere := dups && r.Chance(1, 2)
+		if dupHere && n == 0 {
+			n = 1 + r.Intn(3)
+		}
 		for j := 0; j < n; j++ {
 			o := OpJ{ID: nextID, Type: drv.Pick(r, 1, 1, 2, 3, 3, 0), Kind: 1 + r.Intn(5), Key: uint64(1 + r.Intn(4))}
 			if r.Chance(1, 12) {
@@ -686,7 +743,35 @@ func genCase(r *drv.Rng) Case {
 			}
 			nextID += uint64(1 + r.Intn(2))
 			s.Ops = append(s.Ops, o)
-			live = append(live, &sop{id: o.ID})
+		}
+		rejectedFrom := len(s.Ops) // operations from this index on are not registered by the client
+		if dupHere {
+			// a second, different operation with an id that is already taken, at a random place of the request
+			twin := func(id uint64) OpJ {
+				return OpJ{ID: id, Type: drv.Pick(r, 1, 2, 3), Kind: 1 + r.Intn(5), Key: uint64(5 + r.Intn(4))}
+			}
+			insert := func(at int, o OpJ) {
+				s.Ops = append(s.Ops[:at], append([]OpJ{o}, s.Ops[at:]...)...)
+			}
+			switch x := r.Intn(4); {
+			case x <= 1 || (x == 2 && len(live) == 0) || (x == 3 && len(closed) == 0): // inside this request
+				k := r.Intn(len(s.Ops))
+				at := k + 1 + r.Intn(len(s.Ops)-k)
+				insert(at, twin(s.Ops[k].ID))
+				rejectedFrom = at
+			case x == 2: // the id of an operation that is pending
+				at := r.Intn(len(s.Ops) + 1)
+				insert(at, twin(live[r.Intn(len(live))].id))
+				rejectedFrom = at
+			default: // the id of an operation that has been completed: accepted
+				at := r.Intn(len(s.Ops) + 1)
+				insert(at, twin(closed[r.Intn(len(closed))].id))
+			}
+		}
+		for j, o := range s.Ops {
+			if j < rejectedFrom {
+				live = append(live, &sop{id: o.ID})
+			}
 		}
 		if n == 0 || r.Chance(1, 10) {
 			s.Elec = r.Chance(1, 2)
@@ -850,7 +935,7 @@ func runC13(args []string) error {
 	}
 	run := &runner{f: fab}
 	rep := drv.Report{Property: "C13", Seed: *f.Seed, Shard: drv.ShardSize, Stats: map[string]int{}, Cases: len(cases),
-		Rule: "client scripts against a scripted stub server over in-memory gRPC; non-trivial = at least 2 operations completed, at least one response batching >= 2 results or answering ids out of queue order, and an AwaitConverged; distinct by the canonical text of configuration and steps"}
+		Rule: "client scripts against a scripted stub server over in-memory gRPC; some scripts carry the same operation id twice inside one request or reuse the id of a pending / completed operation; non-trivial = at least 2 operations completed, at least one response batching >= 2 results or answering ids out of queue order, and an AwaitConverged; distinct by the canonical text of configuration and steps"}
 	var coq []string
 	distinct := map[string]bool{}
 	for i, c0 := range cases {
@@ -862,6 +947,8 @@ func runC13(args []string) error {
 		steps := []string{}
 		completed, batched, reordered, awaits := 0, false, false, 0
 		var lastID uint64
+		idsSoFar := map[uint64]bool{}
+		seen2 := map[uint64]bool{}
 		for j, s := range c.Steps {
 			if j >= len(obs) {
 				break
@@ -891,6 +978,23 @@ func runC13(args []string) error {
 				rep.Stats["await_"+strings.Fields(obs[j].Await + " ?")[0]]++
 			case "q":
 				rep.Stats["ops_queued"] += len(s.Ops)
+				seen := map[uint64]bool{}
+				for _, o := range s.Ops {
+					if seen[o.ID] {
+						rep.Stats["q_same_id_twice_in_one_request"]++
+						break
+					}
+					seen[o.ID] = true
+				}
+				for _, o := range s.Ops {
+					if idsSoFar[o.ID] && !seen2[o.ID] {
+						rep.Stats["q_id_of_an_earlier_request"]++
+						break
+					}
+				}
+				for _, o := range s.Ops {
+					idsSoFar[o.ID] = true
+				}
 			}
 		}
 		if len(obs) > 0 {
